@@ -2024,6 +2024,49 @@ theorem quarantineAccept_safe (s : State) (holder dst : Addr) (records : List Co
       ∀ a d, s.hold a d ≤ s'.hold a d ∧ s'.hold a d ≤ s'.bal a d :=
   routeOk_safe (quarantineAcceptOps_ok holder dst records rs) s hinv
 
+/-! ### the hold module's genesis import
+
+`InitGenesis` (x/hold/keeper/genesis.go:13) places the holds of a genesis state with `AddHold`, one
+entry after the other: it is a message of `addHold` primitives (`initGenesisOps`), so every entry is
+checked against what the EARLIER entries left spendable — also when two entries name the same
+account (the module's `GenesisState.Validate` only refuses a repeated address string; one account
+spelled in lower- and in upper-case bech32 passes it). -/
+
+theorem initGenesisOps_ok (entries : List (Addr × Coins))
+    (hv : ∀ e ∈ entries, (Coins.denoms e.2).Nodup) : RouteOk (initGenesisOps entries) := by
+  apply routeOk_of; intro op hop
+  simp only [initGenesisOps, List.mem_map] at hop
+  obtain ⟨e, he, rfl⟩ := hop
+  have := hv e he
+  simp [PlainCtx, WF, NoSetTime, Op.ctx, this]
+
+/-- **Genesis import of holds**, for every list of entries with valid amounts (any accounts, repeated
+or not, any amounts, any state): refused (it panics) or not, `hold ≤ balance` afterwards; when it
+goes through no hold that was there shrinks and EVERY hold — all entries of an account together —
+is covered by the account's balance. -/
+theorem initGenesis_safe (s : State) (entries : List (Addr × Coins))
+    (hv : ∀ e ∈ entries, (Coins.denoms e.2).Nodup) (hinv : HoldLeBal s) :
+    HoldLeBal (stepMsg s (initGenesisOps entries)) ∧
+    ∀ s', applyAll s (initGenesisOps entries) = .ok s' →
+      ∀ a d, s.hold a d ≤ s'.hold a d ∧ s'.hold a d ≤ s'.bal a d :=
+  routeOk_safe (initGenesisOps_ok entries hv) s hinv
+
+/-- … and it keeps what `HoldAccountBalancesInvariant` checks (`hold + unvested ≤ balance`). -/
+theorem initGenesis_good (s : State) (g : Good s) (entries : List (Addr × Coins))
+    (hv : ∀ e ∈ entries, (Coins.denoms e.2).Nodup) : Good (stepMsg s (initGenesisOps entries)) :=
+  message_good _ s (initGenesisOps_ok entries hv).1 g
+
+/-- the hypothesis is satisfiable on a non-trivial instance: one account in two entries -/
+example : ∀ e ∈ [(("A" : Addr), ([("banana", 6)] : Coins)), ("A", [("banana", 6)])], (Coins.denoms e.2).Nodup := by
+  intro e he; simp at he; subst he; simp [Coins.denoms]
+
+/-- two entries of 6 for one account with 10 spendable: the second one is refused, nothing is imported -/
+example : isErrFunds (applyAll { ledger := [⟨"A", "banana", 10⟩] }
+    (initGenesisOps [("A", [("banana", 6)]), ("A", [("banana", 6)])])) = true ∧
+    ∃ s', applyAll { ledger := [⟨"A", "banana", 10⟩] }
+      (initGenesisOps [("A", [("banana", 6)]), ("A", [("banana", 4)])]) = .ok s' ∧ s'.hold "A" "banana" = 10 := by
+  refine ⟨by decide, _, rfl, by decide⟩
+
 /-- Every one of these routes also keeps what `HoldAccountBalancesInvariant` checks
 (`hold + unvested ≤ balance`, §6), accepted or not. -/
 theorem routes_good (s : State) (g : Good s) (a b : Addr) (amt : Coins) (r : Option Addr)
